@@ -1047,6 +1047,75 @@ theorem pagingLoop_cons_ne (nm : Names) (ent : Nat) (before : Bool) (ps : Binds)
     (rest : List (List (Order × Val))) : (pagingLoop nm ent before ps (p :: rest)).2.isEmpty = false := by
   simp [pagingLoop]
 
+/-- **cursors**: the paging predicate (absent without a cursor) is true for a stored row iff the evaluator's
+    `before` / `after` cursor holds for the row -/
+theorem pagingOf_spec (env : String → Val) (nm : Names) (s : Schema) (q : Query) (ps : Binds)
+    (hfld : ∀ a b, nm.fieldShort q.ent a = nm.fieldShort q.ent b → a = b)
+    (V : Row → List (String × J))
+    (hV : ∀ (r : Row) (name : String) (fld : Nat), q.sels.any (isScalarSel name fld) = true →
+      assoc name (V r) = some (projSpec s r (.scalar name fld)).2)
+    (hord : ∀ o ∈ q.orders, OrderWf s q.ent q.sels o)
+    (hcur : q.after = [] ∨ q.before = []) (hla : q.after.length ≤ q.orders.length)
+    (hlb : q.before.length ≤ q.orders.length) :
+    ∃ e, (pagingOf nm q.ent ps q).1 = ps ++ e ∧
+      ∀ (more : Binds) (r : Row), r.ent = q.ent →
+        (((pagingOf nm q.ent ps q).2.isEmpty = true ∨
+            paging3 (bindVal env ((pagingOf nm q.ent ps q).1 ++ more)) (encodeRow nm r) (V r)
+              (pagingOf nm q.ent ps q).2 = some true) ↔
+          cursorHolds D q.orders q.after q.before (keysOf D s q.ent q.orders r) = true) := by
+  have hwfp : ∀ cs : List Val, ∀ p ∈ inits1 (q.orders.zip cs), ∀ x ∈ p, OrderWf s q.ent q.sels x.1 := by
+    intro cs p hp x hx
+    have hxz := inits1_mem _ p hp x hx
+    obtain ⟨o, c⟩ := x
+    exact hord o (List.of_mem_zip hxz).1
+  obtain ⟨e3, he3, hpg⟩ := pagingLoop_spec env nm s q.ent hfld q.sels V hV (!q.before.isEmpty)
+    (inits1 (q.orders.zip (if (!q.before.isEmpty) = true then q.before else q.after))) ps (hwfp _)
+  refine ⟨e3, he3, ?_⟩
+  intro more r hr
+  have hp := hpg more r hr
+  show ((pagingLoop nm q.ent (!q.before.isEmpty) ps
+      (inits1 (q.orders.zip (if (!q.before.isEmpty) = true then q.before else q.after)))).2.isEmpty = true ∨
+    paging3 (bindVal env ((pagingLoop nm q.ent (!q.before.isEmpty) ps
+      (inits1 (q.orders.zip (if (!q.before.isEmpty) = true then q.before else q.after)))).1 ++ more)) (encodeRow nm r) (V r)
+      (pagingLoop nm q.ent (!q.before.isEmpty) ps
+        (inits1 (q.orders.zip (if (!q.before.isEmpty) = true then q.before else q.after)))).2 = some true) ↔ _
+  rw [hp]
+  have hkeys : keysOf D s q.ent q.orders r = q.orders.map (keyOf D s q.ent r) := rfl
+  rw [hkeys]
+  cases hb : q.before with
+  | nil =>
+    cases ha : q.after with
+    | nil =>
+      simp [inits1, pagingLoop, cursorHolds]
+    | cons a as =>
+      cases hos : q.orders with
+      | nil => rw [ha, hos] at hla; simp at hla
+      | cons o os =>
+        have hne : (pagingLoop nm q.ent (!([] : List Val).isEmpty) ps
+            (inits1 ((o :: os).zip (if (!([] : List Val).isEmpty) = true then [] else a :: as)))).2.isEmpty = false := by
+          simp only [List.isEmpty_nil, Bool.not_true, Bool.false_eq_true, if_false, List.zip_cons_cons, inits1]
+          exact pagingLoop_cons_ne ..
+        rw [hne]
+        simp only [Bool.false_eq_true, false_or, List.isEmpty_nil, Bool.not_true, if_false, cursorHolds,
+          List.isEmpty_cons, Bool.false_or, Bool.true_or, Bool.and_true]
+        rw [any_alts_after]
+  | cons b bs =>
+    have ha : q.after = [] := by
+      rcases hcur with h | h
+      · exact h
+      · rw [hb] at h; exact absurd h (by simp)
+    cases hos : q.orders with
+    | nil => rw [hb, hos] at hlb; simp at hlb
+    | cons o os =>
+      have hne : (pagingLoop nm q.ent (!(b :: bs).isEmpty) ps
+          (inits1 ((o :: os).zip (if (!(b :: bs).isEmpty) = true then b :: bs else q.after)))).2.isEmpty = false := by
+        simp only [List.isEmpty_cons, Bool.not_false, if_true, List.zip_cons_cons, inits1]
+        exact pagingLoop_cons_ne ..
+      rw [hne]
+      simp only [Bool.false_eq_true, false_or, List.isEmpty_cons, Bool.not_false, if_true, cursorHolds, ha,
+        List.isEmpty_nil, Bool.true_or, Bool.true_and, Bool.false_or]
+      rw [any_alts_before]
+
 /-- the three clauses of the statement compiled from the bind list `ps`, on a stored row of the query's entity,
     read under any extension `more` of the statement's bind list -/
 theorem compileFrom_parts (env : String → Val) (nm : Names) (s : Schema) (vn : Nat → String) (q : Query) (ps : Binds)
@@ -1073,18 +1142,11 @@ theorem compileFrom_parts (env : String → Val) (nm : Names) (s : Schema) (vn :
   obtain ⟨e2, he2, hflt⟩ := filtersLoop_spec env nm s q.ent hfld q.sels (fun r => q.sels.map (projSpec s r)) hV vn q.filters
     (projLoop nm s q.ent ps q.sels).1 0 (fun f hf => (hfil f hf).2.2)
     (fun j f hj hp => by have := henv j f hj hp; simpa using this)
-  -- the paging alternatives
-  have hwfp : ∀ cs : List Val, ∀ p ∈ inits1 (q.orders.zip cs), ∀ x ∈ p, OrderWf s q.ent q.sels x.1 := by
-    intro cs p hp x hx
-    have hxz := inits1_mem _ p hp x hx
-    obtain ⟨o, c⟩ := x
-    exact hord o (List.of_mem_zip hxz).1
-  obtain ⟨e3, he3, hpg⟩ := pagingLoop_spec env nm s q.ent hfld q.sels (fun r => q.sels.map (projSpec s r)) hV (!q.before.isEmpty)
-    (inits1 (q.orders.zip (if (!q.before.isEmpty) = true then q.before else q.after)))
-    (filtersLoop nm s q.ent vn (projLoop nm s q.ent ps q.sels).1 0 q.filters).1 (hwfp _)
+  obtain ⟨e3, he3, hpg⟩ := pagingOf_spec env nm s q
+    (filtersLoop nm s q.ent vn (projLoop nm s q.ent ps q.sels).1 0 q.filters).1 hfld
+    (fun r => q.sels.map (projSpec s r)) hV hord hcur hla hlb
   have hbinds : (compileFrom nm s vn ps q).binds =
-      (pagingLoop nm q.ent (!q.before.isEmpty) (filtersLoop nm s q.ent vn (projLoop nm s q.ent ps q.sels).1 0 q.filters).1
-        (inits1 (q.orders.zip (if (!q.before.isEmpty) = true then q.before else q.after)))).1 := rfl
+      (pagingOf nm q.ent (filtersLoop nm s q.ent vn (projLoop nm s q.ent ps q.sels).1 0 q.filters).1 q).1 := rfl
   refine ⟨e1 ++ (e2 ++ e3), by rw [hbinds, he3, he2, he1]; simp only [List.append_assoc], ?_⟩
   intro more r hr
   refine ⟨?_, ?_, ?_⟩
@@ -1096,48 +1158,7 @@ theorem compileFrom_parts (env : String → Val) (nm : Names) (s : Schema) (vn :
     rw [hbinds, he3]
     simp only [List.append_assoc]
     exact this
-  · have hp := hpg more r hr
-    have hpaging : (compileFrom nm s vn ps q).paging =
-        (pagingLoop nm q.ent (!q.before.isEmpty) (filtersLoop nm s q.ent vn (projLoop nm s q.ent ps q.sels).1 0 q.filters).1
-          (inits1 (q.orders.zip (if (!q.before.isEmpty) = true then q.before else q.after)))).2 := rfl
-    rw [hpaging, hbinds, hp]
-    have hkeys : keysOf D s q.ent q.orders r = q.orders.map (keyOf D s q.ent r) := rfl
-    rw [hkeys]
-    cases hb : q.before with
-    | nil =>
-      cases ha : q.after with
-      | nil =>
-        simp [inits1, pagingLoop, cursorHolds]
-      | cons a as =>
-        cases hos : q.orders with
-        | nil => rw [ha, hos] at hla; simp at hla
-        | cons o os =>
-          have hne : (pagingLoop nm q.ent (!([] : List Val).isEmpty)
-              (filtersLoop nm s q.ent vn (projLoop nm s q.ent ps q.sels).1 0 q.filters).1
-              (inits1 ((o :: os).zip (if (!([] : List Val).isEmpty) = true then [] else a :: as)))).2.isEmpty = false := by
-            simp only [List.isEmpty_nil, Bool.not_true, Bool.false_eq_true, if_false, List.zip_cons_cons, inits1]
-            exact pagingLoop_cons_ne ..
-          rw [hne]
-          simp only [Bool.false_eq_true, false_or, List.isEmpty_nil, Bool.not_true, if_false, cursorHolds,
-            List.isEmpty_cons, Bool.false_or, Bool.true_or, Bool.and_true]
-          rw [any_alts_after]
-    | cons b bs =>
-      have ha : q.after = [] := by
-        rcases hcur with h | h
-        · exact h
-        · rw [hb] at h; exact absurd h (by simp)
-      cases hos : q.orders with
-      | nil => rw [hb, hos] at hlb; simp at hlb
-      | cons o os =>
-        have hne : (pagingLoop nm q.ent (!(b :: bs).isEmpty)
-            (filtersLoop nm s q.ent vn (projLoop nm s q.ent ps q.sels).1 0 q.filters).1
-            (inits1 ((o :: os).zip (if (!(b :: bs).isEmpty) = true then b :: bs else q.after)))).2.isEmpty = false := by
-          simp only [List.isEmpty_cons, Bool.not_false, if_true, List.zip_cons_cons, inits1]
-          exact pagingLoop_cons_ne ..
-        rw [hne]
-        simp only [Bool.false_eq_true, false_or, List.isEmpty_cons, Bool.not_false, if_true, cursorHolds, ha,
-          List.isEmpty_nil, Bool.true_or, Bool.true_and, Bool.false_or]
-        rw [any_alts_before]
+  · exact hpg more r hr
 
 theorem whereHolds_iff (st : SqlSelect) (bv : Nat → SqlVal) (row : NodeRow) :
     whereHolds st bv row = true ↔
